@@ -259,6 +259,201 @@ def extract():
             "source": ast.unparse(outer).replace("-/", "- /").replace("/-", "/ -")}
 
 
+# ------------------------------------------------------------------------------------------------
+# second nest: Boolean row programs
+#     A = np.full((n, n), False, dtype=np.bool_)
+#     for i in prange(M.shape[0] | n):
+#         v = M[i, :].copy()
+#         for _ in range(a, depth):
+#             P = M[v, :].copy()
+#             for j in prange(M.shape[0] | n):
+#                 v[j] = <bool expr over P[:, j].any(), v[j]>
+#         A[i, :] = v.copy()
+#         A[i, i] = 1 | True
+#     return A
+# ------------------------------------------------------------------------------------------------
+def strip_copy(e):
+    if isinstance(e, ast.Call) and isinstance(e.func, ast.Attribute) and e.func.attr == "copy" and not e.args and not e.keywords:
+        return e.func.value, True
+    return e, False
+
+
+class RowReader:
+    def __init__(self, n_name, conn, depth):
+        self.n_name, self.conn, self.depth = n_name, conn, depth
+
+    def is_n(self, e):
+        """`n` or `M.shape[0]` of the (n, n) connection matrix"""
+        if isinstance(e, ast.Name) and e.id == self.n_name:
+            return True
+        return (isinstance(e, ast.Subscript) and isinstance(e.value, ast.Attribute) and e.value.attr == "shape"
+                and isinstance(e.value.value, ast.Name) and e.value.value.id == self.conn
+                and isinstance(e.slice, ast.Constant) and e.slice.value in (0, 1))
+
+    def full_loop(self, node):
+        if not (isinstance(node, ast.For) and isinstance(node.target, ast.Name) and is_call(node.iter, ("prange", "range"))
+                and len(node.iter.args) == 1 and self.is_n(node.iter.args[0]) and not node.orelse):
+            raise Unsupported(f"{FN}: not a loop over the {self.n_name} rows: `{ast.unparse(node)[:60]}`")
+        return node.target.id
+
+    def bexpr(self, e, vec, mats, j):
+        """Boolean cell expression inside `for j`: reads `vec[j]` and `P[:, j].any()` only"""
+        if isinstance(e, ast.Call) and isinstance(e.func, ast.Attribute) and e.func.attr in ("bitwise_or", "logical_or", "bitwise_and", "logical_and") \
+                and isinstance(e.func.value, ast.Name) and e.func.value.id in ("np", "numpy") and len(e.args) == 2:
+            return ("or" if e.func.attr.endswith("or") else "and", self.bexpr(e.args[0], vec, mats, j), self.bexpr(e.args[1], vec, mats, j))
+        if isinstance(e, ast.BinOp) and isinstance(e.op, (ast.BitOr, ast.BitAnd)):
+            return ("or" if isinstance(e.op, ast.BitOr) else "and", self.bexpr(e.left, vec, mats, j), self.bexpr(e.right, vec, mats, j))
+        if isinstance(e, ast.BoolOp):
+            out = self.bexpr(e.values[0], vec, mats, j)
+            for v in e.values[1:]:
+                out = ("or" if isinstance(e.op, ast.Or) else "and", out, self.bexpr(v, vec, mats, j))
+            return out
+        if isinstance(e, ast.Subscript) and isinstance(e.value, ast.Name) and e.value.id == vec and isinstance(e.slice, ast.Name) and e.slice.id == j:
+            return ("cell", vec)
+        if isinstance(e, ast.Call) and isinstance(e.func, ast.Attribute) and e.func.attr == "any" and not e.args and not e.keywords:
+            c = e.func.value
+            if isinstance(c, ast.Subscript) and isinstance(c.value, ast.Name) and c.value.id in mats and isinstance(c.slice, ast.Tuple) \
+                    and len(c.slice.elts) == 2 and isinstance(c.slice.elts[0], ast.Slice) and c.slice.elts[0].lower is None \
+                    and c.slice.elts[0].upper is None and c.slice.elts[0].step is None and isinstance(c.slice.elts[1], ast.Name) and c.slice.elts[1].id == j:
+                return ("anycol", c.value.id)
+        raise Unsupported(f"{FN}: Boolean cell expression outside the subset: `{ast.unparse(e)}`")
+
+    def read(self, alloc, loop, ret):
+        # A = np.full((n, n), False, …)
+        if not (isinstance(alloc, ast.Assign) and len(alloc.targets) == 1 and isinstance(alloc.targets[0], ast.Name)
+                and is_call(alloc.value, ("np", "numpy"), "full") and len(alloc.value.args) >= 2 and isinstance(alloc.value.args[0], ast.Tuple)
+                and [getattr(x, "id", None) for x in alloc.value.args[0].elts] == [self.n_name, self.n_name]
+                and isinstance(alloc.value.args[1], ast.Constant) and alloc.value.args[1].value is False):
+            raise Unsupported(f"{FN}: the aggregated matrix is not allocated as np.full(({self.n_name}, {self.n_name}), False, …)")
+        out = alloc.targets[0].id
+        i = self.full_loop(loop)
+        body = loop.body
+        if len(body) != 4:
+            raise Unsupported(f"{FN}: the row loop has {len(body)} statements, expected 4")
+        # v = M[i, :].copy()
+        s0 = body[0]
+        src_, copied = strip_copy(s0.value) if isinstance(s0, ast.Assign) else (None, False)
+        if not (isinstance(s0, ast.Assign) and len(s0.targets) == 1 and isinstance(s0.targets[0], ast.Name) and copied
+                and isinstance(src_, ast.Subscript) and isinstance(src_.value, ast.Name) and src_.value.id == self.conn
+                and isinstance(src_.slice, ast.Tuple) and len(src_.slice.elts) == 2 and isinstance(src_.slice.elts[0], ast.Name)
+                and src_.slice.elts[0].id == i and isinstance(src_.slice.elts[1], ast.Slice) and src_.slice.elts[1].lower is None
+                and src_.slice.elts[1].upper is None):
+            raise Unsupported(f"{FN}: the row loop does not start with `v = {self.conn}[{i}, :].copy()` (a copy is required: the row is updated in place)")
+        vec = s0.targets[0].id
+        # for _ in range(a, depth):
+        it = body[1]
+        if not (isinstance(it, ast.For) and isinstance(it.target, ast.Name) and is_call(it.iter, ("range",)) and len(it.iter.args) == 2
+                and isinstance(it.iter.args[0], ast.Constant) and isinstance(it.iter.args[0].value, int) and it.iter.args[0].value >= 0
+                and isinstance(it.iter.args[1], ast.Name) and it.iter.args[1].id == self.depth and not it.orelse and len(it.body) == 2):
+            raise Unsupported(f"{FN}: the iteration is not `for _ in range(a, {self.depth})` with two statements")
+        start = it.iter.args[0].value
+        if any(isinstance(nd, ast.Name) and nd.id == it.target.id for st in it.body for nd in ast.walk(st)):
+            raise Unsupported(f"{FN}: the iteration counter is read")
+        # P = M[v, :].copy()
+        s1 = it.body[0]
+        src_, copied = strip_copy(s1.value) if isinstance(s1, ast.Assign) else (None, False)
+        if not (isinstance(s1, ast.Assign) and len(s1.targets) == 1 and isinstance(s1.targets[0], ast.Name) and copied
+                and isinstance(src_, ast.Subscript) and isinstance(src_.value, ast.Name) and src_.value.id == self.conn
+                and isinstance(src_.slice, ast.Tuple) and len(src_.slice.elts) == 2 and isinstance(src_.slice.elts[0], ast.Name)
+                and src_.slice.elts[0].id == vec and isinstance(src_.slice.elts[1], ast.Slice) and src_.slice.elts[1].lower is None
+                and src_.slice.elts[1].upper is None):
+            raise Unsupported(f"{FN}: expected `P = {self.conn}[{vec}, :].copy()` (a copy is required: `{vec}` is updated in place afterwards)")
+        sel = s1.targets[0].id
+        jl = it.body[1]
+        j = self.full_loop(jl)
+        if not (len(jl.body) == 1 and isinstance(jl.body[0], ast.Assign) and len(jl.body[0].targets) == 1):
+            raise Unsupported(f"{FN}: the cell loop is not one assignment")
+        tg = jl.body[0].targets[0]
+        if not (isinstance(tg, ast.Subscript) and isinstance(tg.value, ast.Name) and tg.value.id == vec and isinstance(tg.slice, ast.Name) and tg.slice.id == j):
+            raise Unsupported(f"{FN}: the cell loop does not store `{vec}[{j}]`")
+        cell = self.bexpr(jl.body[0].value, vec, (sel,), j)
+        # A[i, :] = v.copy() ; A[i, i] = 1
+        s2, s3 = body[2], body[3]
+        val, _ = strip_copy(s2.value) if isinstance(s2, ast.Assign) else (None, False)
+        t2 = s2.targets[0] if isinstance(s2, ast.Assign) and len(s2.targets) == 1 else None
+        if not (isinstance(t2, ast.Subscript) and isinstance(t2.value, ast.Name) and t2.value.id == out and isinstance(t2.slice, ast.Tuple)
+                and len(t2.slice.elts) == 2 and isinstance(t2.slice.elts[0], ast.Name) and t2.slice.elts[0].id == i
+                and isinstance(t2.slice.elts[1], ast.Slice) and t2.slice.elts[1].lower is None and t2.slice.elts[1].upper is None
+                and isinstance(val, ast.Name) and val.id == vec):
+            raise Unsupported(f"{FN}: expected `{out}[{i}, :] = {vec}.copy()`")
+        t3 = s3.targets[0] if isinstance(s3, ast.Assign) and len(s3.targets) == 1 else None
+        if not (isinstance(t3, ast.Subscript) and isinstance(t3.value, ast.Name) and t3.value.id == out and isinstance(t3.slice, ast.Tuple)
+                and [getattr(x, "id", None) for x in t3.slice.elts] == [i, i] and isinstance(s3.value, ast.Constant)
+                and s3.value.value in (1, True)):
+            raise Unsupported(f"{FN}: expected `{out}[{i}, {i}] = 1`")
+        if not (isinstance(ret, ast.Return) and isinstance(ret.value, ast.Name) and ret.value.id == out):
+            raise Unsupported(f"{FN}: does not return `{out}`")
+        return {"out": out, "i": i, "j": j, "vec": vec, "sel": sel, "start": start, "cell": cell,
+                "source": ast.unparse(loop).replace("-/", "- /").replace("/-", "/ -")}
+
+
+def lean_cell(e, j) -> str:
+    if e[0] in ("or", "and"):
+        return f"({lean_cell(e[1], j)} {'||' if e[0] == 'or' else '&&'} {lean_cell(e[2], j)})"
+    if e[0] == "cell":
+        return f"({e[1]}.getD {j} false)"
+    if e[0] == "anycol":
+        return f"(PyScanGraph.anyCol {e[1]} {j})"
+    raise AssertionError(e)
+
+
+def ev_cell(e, vec, sel, j):
+    if e[0] == "or":
+        return ev_cell(e[1], vec, sel, j) or ev_cell(e[2], vec, sel, j)
+    if e[0] == "and":
+        return ev_cell(e[1], vec, sel, j) and ev_cell(e[2], vec, sel, j)
+    if e[0] == "cell":
+        return vec[j]
+    if e[0] == "anycol":
+        return any(r[j] for r in sel)
+    raise AssertionError(e)
+
+
+def extract_whole():
+    """the whole function: the eye branch, the connection scan, the closure nest"""
+    x = extract()
+    fn = find_function(parse(SRC), FN)
+    body = [s for s in fn.body if not (isinstance(s, ast.Expr) and isinstance(getattr(s, "value", None), ast.Constant))]
+    depth = fn.args.args[2].arg
+    top = [s for s in body if isinstance(s, ast.If)][0]
+    n_name = [s.targets[0].id for s in body if isinstance(s, ast.Assign) and is_call(s.value, ("len",))][0]
+    if [type(s) for s in body] != [ast.Assign, ast.If, ast.Return]:
+        raise Unsupported(f"{FN}: top level is not `n = len(..)`, `if {depth} == 0`, `return`")
+    # eye branch
+    if not (len(top.body) == 1 and isinstance(top.body[0], ast.Assign) and len(top.body[0].targets) == 1
+            and is_call(top.body[0].value, ("np", "numpy"), "eye") and len(top.body[0].value.args) == 1
+            and isinstance(top.body[0].value.args[0], ast.Name) and top.body[0].value.args[0].id == n_name):
+        raise Unsupported(f"{FN}: the `{depth} == 0` branch is not `np.eye({n_name}, …)`")
+    branch = top.orelse
+    if len(branch) != 4:
+        raise Unsupported(f"{FN}: the else branch has {len(branch)} statements, expected 4 (allocation, scan, allocation, closure)")
+    conn = branch[0].targets[0].id
+    w = RowReader(n_name, conn, depth).read(branch[2], branch[3], body[2])
+    if top.body[0].targets[0].id != w["out"]:
+        raise Unsupported(f"{FN}: the two branches do not bind the returned matrix")
+    x["closure"] = w
+    x["conn"] = conn
+    x["depth"] = depth
+    return x
+
+
+def evaluate_whole(x, border_left, border_right, depth: int):
+    n = len(border_left)
+    if depth == 0:
+        return [[a == b for b in range(n)] for a in range(n)]
+    conn = evaluate(x, border_left, border_right)
+    w = x["closure"]
+    out = []
+    for i in range(n):
+        vec = list(conn[i])
+        for _ in range(w["start"], depth):
+            sel = [list(conn[r]) for r in range(n) if vec[r]]
+            vec = [bool(ev_cell(w["cell"], vec, sel, j)) for j in range(n)]
+        vec[i] = True
+        out.append(vec)
+    return out
+
+
 def evaluate(x, border_left, border_right):
     """the connection matrix as the SAME tree says (exact integers)"""
     arrays = {ARRAYS[0]: border_left, ARRAYS[1]: border_right}
@@ -342,11 +537,38 @@ def render(x) -> str:
         m = evaluate(x, bl, br)
         rhs = "[" + ", ".join("[" + ", ".join("true" if v else "false" for v in r) + "]" for r in m) + "]"
         lines.append(f"example : connectionGraph {len(bl)} {lean_fun(bl)} {lean_fun(br)} = {rhs} := by decide +kernel")
+    w = x["closure"]
+    d, conn = x["depth"], x["conn"]
+    lines += [
+        "",
+        f"/- the closure nest of {FN}:",
+        w["source"],
+        "-/",
+        f"def closeRow (n {d} : Nat) ({conn} : List (List Bool)) ({w['i']} : Nat) : List Bool :=",
+        f"  let {w['vec']} : List Bool := PyScanGraph.rowOf {conn} {w['i']}",
+        f"  let {w['vec']} : List Bool := PyScanGraph.iter (fun ({w['vec']} : List Bool) =>",
+        f"      let {w['sel']} : List (List Bool) := PyScanGraph.selectRows {conn} {w['vec']}",
+        f"      PyScanGraph.tabulateB n (fun ({w['j']} : Nat) => {lean_cell(w['cell'], w['j'])})) ({d} - {w['start']}) {w['vec']}",
+        f"  {w['vec']}.set {w['i']} true",
+        "",
+        f"/-- `{FN}(border_left, border_right, {d})` (a non-negative depth) -/",
+        f"def createConnectedGraph (n : Nat) ({ARRAYS[0]} {ARRAYS[1]} : Nat → Nat → Int) ({d} : Nat) : List (List Bool) :=",
+        f"  if {d} = 0 then PyScanGraph.eye n",
+        f"  else",
+        f"    let {conn} : List (List Bool) := connectionGraph n {ARRAYS[0]} {ARRAYS[1]}",
+        f"    (List.range n).map (closeRow n {d} {conn})",
+        "",
+    ]
+    for bl, br in GOLDEN[:2]:
+        for depth in (0, 1, 2, 3):
+            m = evaluate_whole(x, bl, br, depth)
+            rhs = "[" + ", ".join("[" + ", ".join("true" if v else "false" for v in r) + "]" for r in m) + "]"
+            lines.append(f"example : createConnectedGraph {len(bl)} {lean_fun(bl)} {lean_fun(br)} {depth} = {rhs} := by decide +kernel")
     lines += ["", "end Pandora.Generated.KernelsRegul"]
     return "\n".join(lines) + "\n"
 
 
 def generate():
-    x = extract()
+    x = extract_whole()
     write_if_changed("KernelsRegul.lean", render(x))
     return {"T14s": {"source": [SRC], "digest": digest(SRC), "matrix": x["matrix"], "lo": x["lo"], "actions": [a for _, a in x["acts"]]}}
